@@ -19,13 +19,13 @@ CLAIMS = {
  "C05": "Bounded model checking of the real get_row / expand_x / expand_c / generate_* code through a synthetic MIR harness: one source row of 3 columns (4 in the thorough tier) with symbolic entry kinds, values and widths, all 48 shapes per layout, compared by the solver with the expansion the property prescribes (order, clock triples, checked flag, expected X). Rows wider than the bound and interaction with loops are outside.",
  "C07": "Exhaustive symbolic execution of the two per-signal masking closures (with the bit_mask helper inlined) and the virtual-signal constructor for all widths 1..=64 and all 64-bit values in the dev and release arithmetic profiles.",
  "C08": "BinOp::eval and UnaryOp::eval against the statement's semantics for all i64 operands in both profiles; precedence table order-isomorphic to the eight levels; one step of BinOpTree::add from an arbitrary tree; one recursion step of Expr::eval (operand order, error propagation); lazy ite as a trace obligation.",
+ "C09": "Bounded model checking of the real parser code over symbolic token sequences: parse_stmt_block(None) over every sequence of N <= 3 token kinds (4 in the thorough tier) and over every statement prefix (loop / while / repeat / let / declare / bits / call heads and bodies) followed by up to 2 arbitrary tokens; HeaderParser::parse over every sequence of <= 4 header tokens; TokenIter::next span/Eof bookkeeping. No path may panic. Outside: termination, the lexer's DFA (assumed: header rules cover every character; WS/Comment are never produced), the character-boundary clause beyond span pass-through.",
+ "C12": "Same token-sequence exploration: a nested block is accepted only if its last two consumed tokens are `end <kind>` (N <= 3 tokens, 4 thorough); a row is accepted only with exactly one entry per header column; bits widths 0..=64 equal to the literal; calls only for known functions with the table's arity; literals only if from_str_radix accepts them with the radix of the token kind; expect() only on the expected kind; header accepted only if terminated, non-empty and duplicate-free (<= 4 header tokens).",
  "C10": "Kernels that used to panic (arithmetic, zero divisors, empty random range, signExt, unknown variable, loop counter overflow) proved panic-free for all values in both profiles; variables-first lookup as the invariant behind the counter read-back.",
  "C13": "Driver errors leave try_new / handle_io / the provided write_input at once as IterationError::Driver with the driver's own value; extract_output_values rejects a wrong output count before evaluating anything and attributes a value only after the identity check of the very answer entry it uses (closure level and whole function with <= 2 expected entries).",
 }
 NA = {
- "C09": "not claimed yet in this session (planned: panic-site audit of the parser modules)",
  "C11": "not claimed: the verdict depends on discrete structure only; see DESIGN.md section 4",
- "C12": "not claimed yet in this session (planned: terminator / arity / literal obligations on the parser functions)",
  "C15": "not claimed yet in this session (planned: sortedness of Parser::finish, static gate)",
  "C16": "not claimed yet in this session (planned: load_test*, extraction helpers, dig.rs panic sites)",
  "C19": "not claimed yet in this session (planned: line bookkeeping kernels)",
